@@ -34,8 +34,8 @@ type fnCtx struct {
 	ids     map[ssa.Value]string
 	linMemo map[ssa.Value]Lin
 	lenMemo map[ssa.Value]Lin
-	defs    []Ineq  // definitional facts (hold wherever the value is defined)
-	lemmas  []lemma // conditional definitional facts
+	defs    []Ineq     // definitional facts (hold wherever the value is defined)
+	lemmas  []lemma    // conditional definitional facts
 	splits  [][][]Ineq // case splits: one of the alternatives (each a conjunction) holds
 	defSeen map[string]bool
 
@@ -49,8 +49,8 @@ type fnCtx struct {
 	verAfter  map[ssa.Instruction]map[int]string
 	storeVers map[string]ssa.Value // version id created by a store -> stored value
 
-	verOut    map[*ssa.BasicBlock]map[int]string
-	unstable  map[int]bool
+	verOut   map[*ssa.BasicBlock]map[int]string
+	unstable map[int]bool
 
 	domMemo    map[*ssa.BasicBlock][]*ssa.BasicBlock
 	blockCands map[*ssa.BasicBlock][]*cand
@@ -672,6 +672,9 @@ func arrayLenOf(t types.Type) (int64, bool) {
 func (c *fnCtx) lenAtom(v ssa.Value) Lin {
 	a := "len(" + c.id(v) + ")"
 	c.addDef(leq(linConst(0), linAtom(a), "len ≥ 0"))
+	if c.e.checkWrap {
+		c.addDef(leq(linAtom(a), linConst(lenCap), "assumption: no buffer longer than 2^40"))
+	}
 	return linAtom(a)
 }
 
